@@ -48,6 +48,24 @@ TARGETS = {
 }
 
 
+# only these line ranges are mutated (functions the properties are anchored in);
+# a file without an entry is mutated everywhere
+RANGES = {
+    "lib/query/transaction.go": [(120, 300)],
+    "lib/query/load_view.go": [(54, 120), (330, 420), (507, 575), (678, 1000), (1217, 1330)],
+    "lib/query/query.go": [(14, 100), (346, 1040)],
+    "lib/query/processor.go": [(73, 330), (754, 790)],
+    "lib/query/goroutine_manager.go": [(35, 200)],
+    "lib/action/run.go": [(22, 64)],
+    "lib/cli/app.go": [(323, 400), (540, 575)],
+}
+
+
+def in_range(f, line):
+    r = RANGES.get(f)
+    return r is None or any(lo <= line <= hi for lo, hi in r)
+
+
 def sh(cmd, **kw):
     return subprocess.run(cmd, shell=True, capture_output=True, text=True, env=kw.pop("env", ENV), **kw)
 
@@ -104,6 +122,8 @@ def enumerate_mutants(flt):
             continue
         lines = open(os.path.join(REPO, f)).read().split("\n")
         for i, l in enumerate(lines):
+            if not in_range(f, i + 1):
+                continue
             for op, nl in mutants_of(l):
                 if nl != l:
                     out.append((f, i, op, nl))
